@@ -98,6 +98,7 @@ class Rep:
     # ---- the three workloads; the body is the same for every fault point ----
     def body(self, wl, fault_after_open=False, probes=True):
         ch, F = self.ch, self.frames
+        vox = (self.word & 0xFFFF) == 0x21
         L = []
         pre = []
         if wl != "w":
@@ -110,8 +111,9 @@ class Rep:
                 L.append(rp if kind == "r" else wp)
 
         if wl == "w":
-            # even counts throughout: odd item counts on OKI/VOX are KF-VOX-ODD (C05), not this property's business
-            n1 = max(2, (F // 3) & ~1)
+            # odd counts on OKI/VOX (two samples per byte: the odd sample is held across calls and written by codec_close -- one more
+            # write callback at close; KF-VOX-ODD repaired), the even counts of before elsewhere
+            n1 = max(2, (F // 3) & ~1) + (1 if vox else 0)
             n2 = max(2, (F // 3) & ~1)
             n3 = max(2, (F - n1 - n2) & ~1)
             P("w")
@@ -123,7 +125,7 @@ class Rep:
             L.append("w h0 s32 i %d %s" % (n3 * ch, hex_s32(s16_items(n3 * ch, 7))))
             P("w")
         elif wl == "r":
-            n1 = max(2, (F // 4) & ~1)
+            n1 = max(2, (F // 4) & ~1) + (1 if vox else 0)
             P("r")
             L.append("r h0 s16 i %d" % (n1 * ch))
             P("r")
